@@ -229,3 +229,32 @@ def parse(text):
     r = expr()
     assert pos[0] == len(toks), "trailing tokens in %r" % text
     return r
+
+
+def names_in(body):
+    """identifier names (locals, params, members, called functions) occurring in a function body"""
+    out = set()
+    for y in T.walk(body):
+        if y[0] == "Ref" and len(y) > 3 and isinstance(y[3], str):
+            out.add(y[3].split("::")[-1])
+        elif y[0] == "Member":
+            out.add(y[2].split("::")[-1])
+        elif y[0] == "Call":
+            out.add(T.callee_name(y))
+    return out
+
+
+def unknown_reference_symbols(want, body, ignore=()):
+    """plain identifier symbols of a reference formula that do not occur in the function at all (a renamed local makes a
+    formula comparison meaningless: report a vanished anchor, not a violation)"""
+    have = names_in(body)
+    miss = []
+    for sy in sorted(want.symbols()):
+        base = sy.split("@")[0].split("<")[0].split("[")[0].split(":")[0]
+        if not base or not (base[0].isalpha() or base[0] == "_"):
+            continue
+        if base in ignore or base.isupper() and base not in have and base in ignore:
+            continue
+        if base not in have:
+            miss.append(sy)
+    return miss
